@@ -330,16 +330,17 @@ fn inject_inconsistency(rng: &mut Rng, q: &mut Q) -> bool {
 
 #[derive(Clone, Debug)]
 enum Step {
-    Set(Q),
+    /// (qos, hand it over as the factory default and call set_qos(QosKind::Default))
+    Set(Q, bool),
     Enable,
 }
 impl Step {
     fn json(&self, base: &Q) -> Json {
         match self {
             Step::Enable => Json::Str("enable()".into()),
-            Step::Set(q) => {
+            Step::Set(q, via_default) => {
                 let d = diff(&base.pol(), &q.pol());
-                Json::obj().set("set_qos", q.json()).set("differs_from_creation_qos_in", strs(&d.iter().map(|s| s.to_string()).collect::<Vec<_>>()))
+                Json::obj().set("set_qos", q.json()).set("via", if *via_default { "set_default_<entity>_qos(q) then set_qos(QosKind::Default)" } else { "set_qos(QosKind::Specific(q))" }).set("differs_from_creation_qos_in", strs(&d.iter().map(|s| s.to_string()).collect::<Vec<_>>()))
             }
         }
     }
@@ -401,7 +402,7 @@ fn gen_case(rng: &mut Rng, thorough: bool) -> Case {
         let mut c = model.clone();
         let r = rng.below(100);
         if r < 25 && inject_inconsistency(rng, &mut c) && inconsistent(&c).is_some() {
-            steps.push(Step::Set(c));
+            steps.push(Step::Set(c, false));
             continue;
         }
         // one (sometimes two) policy changes; immutable ones are preferred half of the time
@@ -417,9 +418,15 @@ fn gen_case(rng: &mut Rng, thorough: bool) -> Case {
             // an unplanned inconsistency (e.g. depth vs limits): keep it, the oracle classifies it
         }
         let accepted = inconsistent(&c).is_none() && (!enabled || diff(&model.pol(), &c.pol()).iter().all(|n| !is_immutable(kind, n)));
-        steps.push(Step::Set(c.clone()));
+        steps.push(Step::Set(c.clone(), false));
         if accepted {
             model = c;
+        }
+    }
+    // drawn last so that the rest of a case does not depend on it
+    for st in steps.iter_mut() {
+        if let Step::Set(_, via_default) = st {
+            *via_default = rng.chance(0.3);
         }
     }
     Case { kind, enabled_at_creation, q_bad, q0, steps }
@@ -517,7 +524,30 @@ impl Ctx {
             _ => unreachable!(),
         }
     }
-    async fn set_qos(&self, e: &Ent, q: &Q) -> Out<()> {
+    /// `via_default`: set_qos(QosKind::Default) after making `q` the factory's default (which must
+    /// be equivalent to set_qos(Specific(q)); an inconsistent default is refused with the error
+    /// that set_qos would have to give)
+    async fn set_qos(&self, e: &Ent, q: &Q, via_default: bool) -> Out<()> {
+        if via_default {
+            let r = match (e, q) {
+                (Ent::T(_), Q::T(q)) => call(&self.sim, self.a.set_default_topic_qos(QosKind::Specific(q.clone()))).await,
+                (Ent::P(..), Q::P(q)) => call(&self.sim, self.a.set_default_publisher_qos(QosKind::Specific(q.clone()))).await,
+                (Ent::S(..), Q::S(q)) => call(&self.sim, self.a.set_default_subscriber_qos(QosKind::Specific(q.clone()))).await,
+                (Ent::W(_), Q::W(q)) => call(&self.sim, self.pub_a.as_ref().unwrap().set_default_datawriter_qos(QosKind::Specific(q.clone()))).await,
+                (Ent::R(_), Q::R(q)) => call(&self.sim, self.sub_a.as_ref().unwrap().set_default_datareader_qos(QosKind::Specific(q.clone()))).await,
+                _ => unreachable!(),
+            };
+            if !r.is_ok() {
+                return r;
+            }
+            return match e {
+                Ent::T(x) => call(&self.sim, x.set_qos(QosKind::Default)).await,
+                Ent::P(x, _) => call(&self.sim, x.set_qos(QosKind::Default)).await,
+                Ent::S(x, _) => call(&self.sim, x.set_qos(QosKind::Default)).await,
+                Ent::W(x) => call(&self.sim, x.set_qos(QosKind::Default)).await,
+                Ent::R(x) => call(&self.sim, x.set_qos(QosKind::Default)).await,
+            };
+        }
         match (e, q) {
             (Ent::T(x), Q::T(q)) => call(&self.sim, x.set_qos(QosKind::Specific(q.clone()))).await,
             (Ent::P(x, _), Q::P(q)) => call(&self.sim, x.set_qos(QosKind::Specific(q.clone()))).await,
@@ -915,14 +945,15 @@ async fn scenario(w: World, case: Case) -> Outcome {
                     out.notes.push(format!("enable failed with {}", r.name()));
                 }
             }
-            Step::Set(q) => {
+            Step::Set(q, via_default) => {
+                let via_default = *via_default;
                 let changed = diff(&cur.pol(), &q.pol());
                 if changed.iter().any(|n| is_unsettled(n)) && enabled {
                     continue; // X-Types policies after enable: not settled by the DDS table
                 }
                 let inc = inconsistent(q);
                 let imm: Vec<&str> = if enabled { changed.iter().cloned().filter(|n| is_immutable(kind, n)).collect() } else { vec![] };
-                let r = ctx.set_qos(&ent, q).await;
+                let r = ctx.set_qos(&ent, q, via_default).await;
                 stop!(r, "set_qos", step);
                 let got = r.name();
                 out.checks += 1;
@@ -932,7 +963,7 @@ async fn scenario(w: World, case: Case) -> Outcome {
                     (None, false) => "immutable",
                     (None, true) => "valid",
                 };
-                out.shapes.push(format!("set_qos/{}/{}/{}/{}", yn(enabled), class, changed.join("+"), got));
+                out.shapes.push(format!("set_qos/{}/{}/{}/{}/{}", yn(enabled), class, changed.join("+"), got, if via_default { "via_default" } else { "specific" }));
                 out.results.insert(format!("set_qos[{},enabled={}]:{}", class, yn(enabled), got));
                 let policy = inc.unwrap_or_else(|| imm.first().cloned().unwrap_or_else(|| changed.first().cloned().unwrap_or("none")));
                 let accepted = r.is_ok();
